@@ -379,4 +379,6 @@ add("C31", "log-grid volume in Jacobian form", "nifty/re/multi_grid/grid_impl.py
 add("C35", "interpolation order not handed to the integrator", "nifty/re/extra/sampling_los.py", "            order=interpolation_order,\n", "", "R35.8")
 add("C35", "truncated ray end computed but not used", "nifty/cl/library/los_response.py", "        pixel_ends = real_ends/dist + 0.5", "        pixel_ends = ends/dist + 0.5", "R35.9")
 add("C35", "single line of sight mapped over its coordinates", "nifty/re/extra/sampling_los.py", "        if self.start.ndim == 1 and self.end.ndim == 1:\n            # A single line of sight: nothing to map over\n            return self._los(x, self.start, self.end)\n", "", "R35.11")
+add("C30", "scalar-target branch bypasses value_reshaper", "nifty/cl/operators/normal_operators.py", "        mean, sigma = (float(value_reshaper(param, 0)) for param in (mean, sigma))", "        mean, sigma = np.asarray(mean, dtype=float), np.asarray(sigma, dtype=float)", "R30.9")
+add("C12", "non-callable std_inv called before it is wrapped", "nifty/re/likelihood_impl.py", "        if not callable(si):\n            si = Partial(operator.mul, si)\n", "", "R12.13")
 VARIANTS = V
